@@ -13,8 +13,13 @@ package centrifuge
 //	pub tag=<n> size=<n> ttl=<s>                -> off=<o> ep=<epoch index>
 //	remove                                      -> ok
 //	adv n=<s>                                   -> ok
-//	sub mode=stream|cache rec= auto= off= ep= rej= delta= cf= sf= h=
+//	sub [via=cmd|connect] mode=stream|cache rec= auto= off= ep= rej= delta= cf= sf= h=
 //	     -> rec=<0|1> pubs=<off:id,…> off=<o> ep=<e> pos=<o> was=<0|1> | err=<code> | disc=<code>
+//
+// via=cmd (default): client subscribe command (handleSubscribe).  via=connect: a server-side
+// subscription returned by OnConnecting (ConnectReply.Subscriptions) whose recovery position comes
+// from ConnectRequest.Subs[channel] (connectCmd copies Recover/Offset/Epoch/Delta only: no client
+// tags filter and no reject flag exist on that path, so cf must be - and rej 0).
 //
 // Epoch strings are replaced by their first-seen index (1, 2, …); request epoch 0 = "", an index
 // not seen yet = a foreign string.
@@ -37,6 +42,7 @@ import (
 const verifRecChannel = "verif:recovery"
 
 type verifRecSub struct {
+	connect        bool
 	cache, auto    bool
 	serverFilter   *protocol.FilterNode
 	handlerSet     bool
@@ -161,22 +167,31 @@ func (s *verifRecScenario) start(meta, limit int) error {
 	s.node = node
 	s.epochs = map[string]int{}
 	s.nextID = 1
+	subOpts := func() SubscribeOptions {
+		cur := s.cur
+		opts := SubscribeOptions{
+			EnableRecovery:    true,
+			AllowTagsFilter:   true,
+			AllowedDeltaTypes: []DeltaType{DeltaTypeFossil},
+		}
+		if cur != nil {
+			if cur.cache {
+				opts.RecoveryMode = RecoveryModeCache
+			}
+			opts.AutoCacheRecover = cur.auto
+			opts.ServerTagsFilter = cur.serverFilter
+		}
+		return opts
+	}
+	node.OnConnecting(func(ctx context.Context, e ConnectEvent) (ConnectReply, error) {
+		if cur := s.cur; cur != nil && cur.connect {
+			return ConnectReply{Subscriptions: map[string]SubscribeOptions{verifRecChannel: subOpts()}}, nil
+		}
+		return ConnectReply{}, nil
+	})
 	node.OnConnect(func(client *Client) {
 		client.OnSubscribe(func(e SubscribeEvent, cb SubscribeCallback) {
-			cur := s.cur
-			opts := SubscribeOptions{
-				EnableRecovery:    true,
-				AllowTagsFilter:   true,
-				AllowedDeltaTypes: []DeltaType{DeltaTypeFossil},
-			}
-			if cur != nil {
-				if cur.cache {
-					opts.RecoveryMode = RecoveryModeCache
-				}
-				opts.AutoCacheRecover = cur.auto
-				opts.ServerTagsFilter = cur.serverFilter
-			}
-			cb(SubscribeReply{Options: opts}, nil)
+			cb(SubscribeReply{Options: subOpts()}, nil)
 		})
 	})
 	if err := node.Run(); err != nil {
@@ -204,6 +219,13 @@ func (s *verifRecScenario) cacheEmpty(e CacheEmptyEvent) (CacheEmptyReply, error
 
 func (s *verifRecScenario) sub(ws []string) string {
 	mode, _ := verifRecKV(ws, "mode")
+	via, hasVia := verifRecKV(ws, "via")
+	if !hasVia {
+		via = "cmd"
+	}
+	if via != "cmd" && via != "connect" {
+		return "bad-op"
+	}
 	rec, ok1 := verifRecInt(ws, "rec")
 	auto, ok2 := verifRecInt(ws, "auto")
 	offS, ok3 := verifRecKV(ws, "off")
@@ -225,7 +247,10 @@ func (s *verifRecScenario) sub(ws []string) string {
 	if !okc || !oks {
 		return "bad-op"
 	}
-	cur := &verifRecSub{cache: mode == "cache", auto: auto == 1, serverFilter: sf}
+	if via == "connect" && (cf != nil || rej == 1) {
+		return "bad-op" // not expressible on the connect-time path
+	}
+	cur := &verifRecSub{connect: via == "connect", cache: mode == "cache", auto: auto == 1, serverFilter: sf}
 	if hS != "-" {
 		parts := strings.SplitN(hS, ":", 2)
 		if len(parts) != 2 {
@@ -273,13 +298,6 @@ func (s *verifRecScenario) sub(ws []string) string {
 	if err != nil {
 		return "harness-error new-client"
 	}
-	crw := testReplyWriterWrapper()
-	if err := client.connectCmd(&protocol.ConnectRequest{}, &protocol.Command{}, time.Now(), crw.rw); err != nil {
-		return "harness-error connect"
-	}
-	client.triggerConnect()
-	client.scheduleOnConnectTimers()
-
 	req := &protocol.SubscribeRequest{
 		Channel: verifRecChannel,
 		Recover: rec == 1,
@@ -293,15 +311,58 @@ func (s *verifRecScenario) sub(ws []string) string {
 	if delta == 1 {
 		req.Delta = string(DeltaTypeFossil)
 	}
+	crw := testReplyWriterWrapper()
+	connReq := &protocol.ConnectRequest{}
+	if cur.connect {
+		connReq.Subs = map[string]*protocol.SubscribeRequest{verifRecChannel: {
+			Recover: req.Recover, Offset: req.Offset, Epoch: req.Epoch, Delta: req.Delta,
+		}}
+	}
+	cerr := client.connectCmd(connReq, &protocol.Command{}, time.Now(), crw.rw)
+	if cerr != nil && !cur.connect {
+		return "harness-error connect"
+	}
+	var herr error
 	rw := testReplyWriterWrapper()
-	herr := client.handleSubscribe(req, &protocol.Command{Id: 1}, time.Now(), rw.rw)
+	var connRes *protocol.SubscribeResult
+	connOutcome := ""
+	if cur.connect {
+		var d *Disconnect
+		var dv Disconnect
+		var e *Error
+		switch {
+		case cerr == nil:
+			if len(crw.replies) > 0 && crw.replies[0].Connect != nil {
+				connRes = crw.replies[0].Connect.Subs[verifRecChannel]
+			}
+			if connRes == nil {
+				connOutcome = "no-reply"
+			}
+			client.triggerConnect()
+			client.scheduleOnConnectTimers()
+		case errors.As(cerr, &d):
+			connOutcome = fmt.Sprintf("disc=%d", d.Code)
+		case errors.As(cerr, &dv):
+			connOutcome = fmt.Sprintf("disc=%d", dv.Code)
+		case errors.As(cerr, &e):
+			connOutcome = fmt.Sprintf("err=%d", e.Code)
+		default:
+			connOutcome = "harness-error connect " + cerr.Error()
+		}
+	} else {
+		client.triggerConnect()
+		client.scheduleOnConnectTimers()
+		herr = client.handleSubscribe(req, &protocol.Command{Id: 1}, time.Now(), rw.rw)
+	}
 	synctest.Wait()
 
 	var out string
 	switch {
 	case herr != nil:
 		out = "harness-error handle-subscribe " + herr.Error()
-	case len(rw.replies) == 0:
+	case connOutcome != "":
+		out = connOutcome
+	case !cur.connect && len(rw.replies) == 0:
 		transport.mu.Lock()
 		closed, d := transport.closed, transport.disconnect
 		transport.mu.Unlock()
@@ -310,10 +371,13 @@ func (s *verifRecScenario) sub(ws []string) string {
 		} else {
 			out = "no-reply"
 		}
-	case rw.replies[0].Error != nil:
+	case !cur.connect && rw.replies[0].Error != nil:
 		out = fmt.Sprintf("err=%d", rw.replies[0].Error.Code)
 	default:
-		res := rw.replies[0].Subscribe
+		res := connRes
+		if !cur.connect {
+			res = rw.replies[0].Subscribe
+		}
 		pubs := make([]string, 0, len(res.Publications))
 		for _, p := range res.Publications {
 			id := p.Tags["id"]
